@@ -7,15 +7,15 @@ M64 = 1 << 64
 Z3_MAX_CHAR = 0x2FFFF   # SMT-LIB 2.6: characters are the code points 0 .. 0x2FFFF
 
 ALPHABET = [ord("a"), ord("b"), ord("."), ord("("), ord("\\"), 0, ord("\n"), 0xE9, 0x1F600, 0x2FFFF, 0x10FFFF,
-            0x665, ord("-")] + [ord(c) for c in "0123456789"]
+            0x665, ord("-"), ord("A")] + [ord(c) for c in "0123456789"]
 # characters that matter for the escape grammar `\u{...}` / `\ud800`; used by the codec pools
 CODEC_ALPHABET = [ord(c) for c in "\\u{}48dDfFgx0"] + [0, 0x7F, 0x80, 0xFF, 0x100, 0xD800, 0x1F600, 0x2FFFF, 0x30000, 0x10FFFF,
                                                          ord("a"), ord(" "), ord("~"), 0x1F, ord('"'), ord("U")]
 
-OPS = ["StrConcat", "StrSubstr", "StrReplace", "StrLen", "StrContains", "StrPrefixOf", "StrSuffixOf", "StrIndexOf",
+OPS = ["StrConcat", "StrConcat3", "StrSubstr", "StrReplace", "StrLen", "StrContains", "StrPrefixOf", "StrSuffixOf", "StrIndexOf",
        "StrToInt", "IntToStr", "__eq__", "__ne__"]
 # argument kinds: s = string, i = 64-bit unsigned
-SIG = {"StrConcat": "ss", "StrSubstr": "iis", "StrReplace": "sss", "StrLen": "s", "StrContains": "ss", "StrPrefixOf": "ss",
+SIG = {"StrConcat": "ss", "StrConcat3": "sss", "StrSubstr": "iis", "StrReplace": "sss", "StrLen": "s", "StrContains": "ss", "StrPrefixOf": "ss",
        "StrSuffixOf": "ss", "StrIndexOf": "ssi", "StrToInt": "s", "IntToStr": "i", "__eq__": "ss", "__ne__": "ss"}
 
 
@@ -44,6 +44,8 @@ def spec(op, a):
     theory interface is BV64 (the translation wraps Int terms in int2bv 64 and reads indices with bv2nat)."""
     if op == "StrConcat":
         return ("s", a[0] + a[1])
+    if op == "StrConcat3":     # the n-ary form claripy.StrConcat(a, b, c)
+        return ("s", a[0] + a[1] + a[2])
     if op == "StrSubstr":
         i, n, s = a
         if 0 <= i < len(s) and n > 0:
@@ -113,7 +115,7 @@ def real_fold(op, a, annotate=None):
         if op in ("__eq__", "__ne__"):
             r = getattr(claripy.ast.String, op)(*args)
         else:
-            r = getattr(claripy, op)(*args)
+            r = getattr(claripy, "StrConcat" if op == "StrConcat3" else op)(*args)
     except Exception as e:  # noqa
         return ("err", type(e).__name__)
     if r.op == "StringV":
@@ -136,7 +138,7 @@ def real_concrete(op, a):
         elif op == "__ne__":
             r = args[0] != args[1]
         else:
-            r = getattr(S, op)(*args)
+            r = getattr(S, "StrConcat" if op == "StrConcat3" else op)(*args)
     except Exception as e:  # noqa
         return ("err", type(e).__name__)
     if isinstance(r, S.StringV):
@@ -203,7 +205,7 @@ class Z:
         elif op == "__ne__":
             e = args[0] != args[1]
         else:
-            e = getattr(self.bz, "_op_raw_" + op)(*args)
+            e = getattr(self.bz, "_op_raw_" + ("StrConcat" if op == "StrConcat3" else op))(*args)
         return self.value(e)
 
     # ---- literal codec, real side
